@@ -81,7 +81,7 @@ PROPS = {
         timeout=dict(quick=300, thorough=3600),
     ),
     "C11": dict(
-        modules=["Drpc.Props.C11", "Drpc.Tie.C11"],
+        modules=["Drpc.Props.C11", "Drpc.Props.Request", "Drpc.Tie.C11"],
         suites=["meta"],
         rule="meta suite: (codec) single entries over key/value lengths {0,1,127,128,16383,16384} compared byte for byte, random maps "
              "of 0-20 pairs (empty / boundary-length / binary / duplicate-prone strings) whose Encode output must be the model's "
@@ -271,7 +271,7 @@ PROPS = {
                      "a connection's Closed() channel stays closed once closed"],
     ),
     "C02": dict(
-        modules=['Drpc.Props.C02', 'Drpc.Props.Manager', 'Drpc.Tie.Manager', 'Drpc.Tie.C11'],
+        modules=['Drpc.Props.C02', 'Drpc.Props.Manager', 'Drpc.Props.Request', 'Drpc.Tie.Manager', 'Drpc.Tie.C11'],
         suites=['e2e', 'meta'],
         rule="meta suite, scoping families: raw frame sequences (metadata for own / other / abandoned ids, repeated, undecodable) written to a real server-side Manager, the (rpc, id, metadata) each handler sees compared with Drpc.Metadata.newServerStream. e2e suite, families delivery+probe: sequences of 1-4 RPCs of all shapes on one connection (real drpcconn.Conn and drpcserver.ServeOne over the director's pipe, 8 configurations, flowing or randomly chunked transport), every payload tagged with (rpc, direction, sequence, length, crc) so that a message delivered to another RPC is recognised; earlier RPCs ended by close or cancel at various points (probe family) before the next begins. Counted: scenarios (#STATS distribution); oracles C02:isolation",
         trusted=COMMON_TRUST + ["Go runtime (goroutines, sync, channels) trusted; the two-endpoint behaviour is explored, not modelled: "
